@@ -279,6 +279,10 @@ def body_history(ops, stats):
                                type(e).__name__, e, [M.op_text(o) for o in ops][-3:]))
         doc = json.load(open(f1))
         for n in spec["nodes"]:
+            if n["kind"] == "PMux" and "parents" not in doc.get(n["name"], {}):
+                raise Fail("history.mux_section_missing",
+                           "after {} the saved file has no PMux section for {!r}".format(
+                               [M.op_text(o) for o in ops][-3:], n["name"]))
             if n["kind"] == "PMux" and doc[n["name"]]["parents"] != n["parents"]:
                 raise Fail("history.mux_input_order",
                            "after {} the saved file lists the mux inputs {} but their priority "
@@ -312,7 +316,7 @@ def streams(tier, avoid):
     common = dict(max_nodes=mn, min_nodes=4, limits=True, groups=True, rails=True,
                   rail_refs=True, thermal=True, avoid=avoid)
     o1 = G.Opts(**common)
-    o2 = G.Opts(phases=True, **common)
+    o2 = G.Opts(phases=True, odd_phase_conf=True, **common)
     return [
         Stream("static", body, strategy=_case(o1), n={"quick": 350, "thorough": 2500},
                reduce=_reduce),
